@@ -22,6 +22,7 @@ BUDGET = {"quick": 200, "thorough": 1500}
 IDF = "/m/idf"
 DIRS = {
     "c1": IDF + "/components/c1",
+    "c1t": IDF + "/components/c1/test_apps",  # a project nested below components/: its rename file is still global
     "p1": IDF + "/examples/p1",
     "p1m": IDF + "/examples/p1/main",
     "pn": IDF + "/examples/p1/nested",
@@ -31,7 +32,7 @@ DIRS = {
     "inc": "/m/inc",
 }
 PROJ_DIRS = ["p1", "pn", "p2"]
-REN_DIRS = ["c1", "p1", "p1m", "pn", "pnm", "p2", "orph", "inc"]
+REN_DIRS = ["c1", "c1t", "p1", "p1m", "pn", "pnm", "p2", "orph", "inc"]
 CHECKED = ["p1", "p1m", "pn", "pnm", "p2", "orph"]  # directories holding an sdkconfig.defaults
 ORDERS = list(itertools.permutations(range(6), 3)) + [(0, 1, 2, 3, 4, 5), (5, 4, 3, 2, 1, 0), (2, 0, 4, 1, 3, 5), (0, 3, 2), (3, 0), (0, 3)]
 
@@ -65,19 +66,19 @@ def _spec(proj, ren, name):
     """flagged? -- from the facts alone, no memo"""
 
     def nearest(dname):
-        chain = {"p1": ["p1"], "p1m": ["p1"], "pn": ["pn", "p1"], "pnm": ["pn", "p1"], "p2": ["p2"], "orph": [], "c1": [], "inc": []}[dname]
+        chain = {"p1": ["p1"], "p1m": ["p1"], "pn": ["pn", "p1"], "pnm": ["pn", "p1"], "p2": ["p2"], "orph": [], "c1": [], "c1t": ["c1t"], "inc": []}[dname]
         for c in chain:
             if proj.get(c) == 2:
                 return c
         return None
 
     used = {1, 2} if name == "p2" else {1}
-    glob = {ren["c1"], ren["inc"]} - {0}
+    glob = {ren["c1"], ren["c1t"], ren["inc"]} - {0}
     root = nearest(name)
     local = set()
     if root is not None:
         for d in REN_DIRS:
-            if d in ("c1", "inc"):
+            if d in ("c1", "c1t", "inc"):
                 continue
             if ren[d] and nearest(d) == root:
                 local.add(ren[d])
@@ -100,7 +101,8 @@ def _run(fs, order):
 
 def scope(ctx, rp1, rp1m, rpn, rpnm, rp2, rorph):
     proj = dict(ctx["proj"])
-    ren = {"c1": ctx["rc1"], "inc": ctx["rinc"]}
+    ren = {"c1": ctx["rc1"], "inc": ctx["rinc"], "c1t": ctx.get("rc1t", 0)}
+    proj["c1t"] = 2
     # decode the selectors into concrete facts (one fork per fact)
     for k, v in (("p1", rp1), ("p1m", rp1m), ("pn", rpn), ("pnm", rpnm), ("p2", rp2), ("orph", rorph)):
         ren[k] = _pick((0, 1, 2), v)
@@ -130,11 +132,11 @@ def jobs(tier, seed, excluded=()):
         # all files outer-project-first, all files innermost-first, plus seeded subsets / orders
         orders = [[0, 1, 2, 3, 4, 5], [5, 4, 3, 2, 1, 0]] + [list(o) for o in rng.sample(ORDERS, max(0, norders - 2))]
         proj = {"p1": a, "pn": b, "p2": c}
-        rc1, rinc = rng.choice((0, 0, 1, 2)), rng.choice((0, 0, 1))
+        rc1, rinc, rc1t = rng.choice((0, 0, 1, 2)), rng.choice((0, 0, 1)), rng.choice((0, 1, 1, 2))
         names = ("rp1", "rp1m", "rpn", "rpnm", "rp2", "rorph")
         params = [(p, "int") for p in names]
         for split in (0, 1, 2):
             pre = " and ".join("0 <= %s <= 2" % p for p in names) + " and rpn == %d" % split + (" and rorph <= 1 and rp1m <= 1 and rp2 <= 1" if tier == "quick" else "")
             smp = [[rng.randint(0, 2), rng.randint(0, 1), split, rng.randint(0, 2), rng.randint(0, 1), rng.randint(0, 1)] for _ in range(3)]
-            out.append(Job("C19", "C19-proj%d%d%d-g%d%d-n%d" % (a, b, c, rc1, rinc, split), "vk.props.c19", "scope", {"proj": proj, "orders": orders, "rc1": rc1, "rinc": rinc}, params, pre, timeout=tmo, samples=smp, tree="skeleton p1=%d nested=%d p2=%d components-rename=%d includes-rename=%d nested-rename=%d" % (a, b, c, rc1, rinc, split)))
+            out.append(Job("C19", "C19-proj%d%d%d-g%d%d-n%d" % (a, b, c, rc1, rinc, split), "vk.props.c19", "scope", {"proj": proj, "orders": orders, "rc1": rc1, "rinc": rinc, "rc1t": rc1t}, params, pre, timeout=tmo, samples=smp, tree="skeleton p1=%d nested=%d p2=%d components-rename=%d components-test_apps-rename=%d includes-rename=%d nested-rename=%d" % (a, b, c, rc1, rc1t, rinc, split)))
     return out
